@@ -42,3 +42,194 @@ Lemma select_referral_sound x old cands identical c :
 Proof.
   intros H. apply select_referral_in in H. apply sieve4_sound in H. tauto.
 Qed.
+
+(* ================= unique candidates ================= *)
+
+From KV Require Import Res.FsFacts.
+
+(* the first two sieves together: "had this name, and was of the kind the rule is about" *)
+Definition name_kind_match (x : referrer_ctx) (old : string) (c : cand) : bool :=
+  prev_name_matches old c && prev_id_selected_by (x_target x) c.
+
+Lemma filter_filter {A} (f g : A -> bool) l :
+  filter g (filter f l) = filter (fun a => f a && g a) l.
+Proof.
+  induction l as [|a t IH]; [reflexivity|]. cbn.
+  destruct (f a); cbn; [destruct (g a); cbn; rewrite IH; reflexivity|assumption].
+Qed.
+
+Lemma sieve4_eq x old l :
+  sieve4 x old l = filter (namespace_sieve x) (filter (roleref_sieve x) (filter (name_kind_match x old) l)).
+Proof. unfold sieve4, name_kind_match. now rewrite (filter_filter (prev_name_matches old)). Qed.
+
+(* When exactly one candidate ever had the referenced name with the right kind, the outcome is decided
+   by the two visibility sieves alone: that candidate, or nothing.  Never an error, never another one. *)
+Lemma select_unique x old l identical b :
+  filter (name_kind_match x old) l = [b] ->
+  select_referral x old l identical =
+  if roleref_sieve x b && namespace_sieve x b then Ok (Some b) else Ok None.
+Proof.
+  intros H. unfold select_referral. rewrite sieve4_eq, H. cbn [filter].
+  destruct (roleref_sieve x b); cbn [filter andb]; [|reflexivity].
+  destruct (namespace_sieve x b); reflexivity.
+Qed.
+
+Lemma select_unique_visible x old l identical b :
+  filter (name_kind_match x old) l = [b] ->
+  roleref_sieve x b = true -> namespace_sieve x b = true ->
+  select_referral x old l identical = Ok (Some b).
+Proof. intros H H1 H2. rewrite (select_unique _ _ _ _ _ H), H1, H2. reflexivity. Qed.
+
+(* Several candidates survive the first four sieves, but exactly one lives in a prefix/suffix context
+   compatible with the referrer's (the SameEndingSubSlice condition, coarse pass): it is chosen. *)
+Lemma select_unique_in_context x old l identical b :
+  filter (prefix_suffix_sieve x true) (sieve4 x old l) = [b] ->
+  select_referral x old l identical = Ok (Some b).
+Proof.
+  intros H. unfold select_referral.
+  destruct (sieve4 x old l) as [|c [|c' t]] eqn:E.
+  - discriminate.
+  - cbn [filter] in H. destruct (prefix_suffix_sieve x true c); inv H. reflexivity.
+  - rewrite H. reflexivity.
+Qed.
+
+(* ... and when the coarse pass leaves several, exactly one of them matches strictly *)
+Lemma select_unique_strict x old l identical b c1 c2 t :
+  filter (prefix_suffix_sieve x true) (sieve4 x old l) = c1 :: c2 :: t ->
+  filter (prefix_suffix_sieve x false) (c1 :: c2 :: t) = [b] ->
+  select_referral x old l identical = Ok (Some b).
+Proof.
+  intros H5 H6. unfold select_referral.
+  destruct (sieve4 x old l) as [|c [|c' t']] eqn:E.
+  - discriminate.
+  - cbn [filter] in H5. destruct (prefix_suffix_sieve x true c); discriminate.
+  - rewrite H5, H6. reflexivity.
+Qed.
+
+(* no candidate ever had the name: nothing is selected *)
+Lemma select_none x old l identical :
+  (forall c, In c l -> prev_name_matches old c = false) ->
+  select_referral x old l identical = Ok None.
+Proof.
+  intros H. unfold select_referral, sieve4.
+  assert (E: filter (prev_name_matches old) l = []).
+  { induction l as [|a t IH]; [reflexivity|]. cbn. rewrite (H a (or_introl eq_refl)).
+    apply IH. intros c Hc. apply H. now right. }
+  rewrite E. reflexivity.
+Qed.
+
+(* ================= the scalar rewrite ================= *)
+
+Lemma set_scalar_plain t s v name :
+  is_null (Scalar t s v) = false ->
+  set_scalar (Some (Scalar TNone SPlain name)) (Scalar t s v) = Ok (Scalar TNone s name).
+Proof. intros H. unfold set_scalar. rewrite H. reflexivity. Qed.
+
+(* setScalar either leaves the scalar alone or writes the current name of the selected candidate *)
+Lemma nr_set_scalar_spec x cands t s v n' :
+  is_null (Scalar t s v) = false ->
+  nr_set_scalar x cands (Scalar t s v) = Ok n' ->
+  (n' = Scalar t s v /\
+   (select_referral x v cands all_names_same = Ok None \/
+    exists c, select_referral x v cands all_names_same = Ok (Some c) /\ c_name c = v)) \/
+  (exists c, select_referral x v cands all_names_same = Ok (Some c) /\ c_name c <> v /\
+             n' = Scalar TNone s (c_name c)).
+Proof.
+  intros Hn H. unfold nr_set_scalar in H. cbn [node_value] in H.
+  destruct (select_referral x v cands all_names_same) as [[c|]| | |] eqn:E; cbn [bind] in H; try discriminate.
+  - destruct (String.eqb (c_name c) v) eqn:En.
+    + inv H. apply String.eqb_eq in En. left. split; [reflexivity|]. right. eauto.
+    + right. exists c. apply String.eqb_neq in En. repeat split; auto.
+      unfold set_string_scalar in H. destruct (String.eqb (c_name c) ""); [discriminate|].
+      unfold str_scalar in H. rewrite set_scalar_plain in H by assumption. now inv H.
+  - inv H. left. auto.
+Qed.
+
+Section RuleLevel.
+  Variable cs : string -> string -> bool.
+  Variable nonstr : string -> bool.
+
+  (* the paths of a rule: every segment is an ordinary field name *)
+  Definition rule_path_plain (fs : fieldspec) : Prop :=
+    Forall (fun p => plain_key p = true) (path_splitter (fs_path fs)).
+
+  (* One rule applied to one referrer: a scalar field the rule's path reaches, holding a name that exactly
+     one visible candidate ever had (with the kind the rule is about), holds that candidate's CURRENT name
+     afterwards. *)
+  Lemma refs_follow_rule cands fs tg referrer r' a t s old b :
+    rule_path_plain fs ->
+    reaches (path_splitter (fs_path fs)) a (r_node referrer) = true ->
+    get_addr a (r_node referrer) = Some (Scalar t s old) ->
+    is_null (Scalar t s old) = false ->
+    let x := make_ctx cs referrer (fs_path fs) tg in
+    filter (name_kind_match x old) cands = [b] ->
+    roleref_sieve x b = true -> namespace_sieve x b = true ->
+    apply_rule cs nonstr cands fs tg referrer = Ok r' ->
+    exists t', get_addr a (r_node r') = Some (Scalar t' s (c_name b)).
+  Proof.
+    intros Hplain Hr Hg Hnn x Hu Hrr Hns H.
+    unfold apply_rule in H. fold x in H.
+    destruct (fs_filter None TNone (nr_set nonstr x cands) (fs_create fs)
+                        (path_splitter (fs_path fs)) (r_node referrer)) as [n'| | |] eqn:HF;
+      cbn [bind] in H; try discriminate. inv H. cbn [r_node with_node].
+    destruct (fs_filter_at None TNone _ (fs_create fs) _ a Hplain (or_intror eq_refl) _ _ _ Hr Hg HF)
+      as (leaf' & Hs & Hg').
+    unfold nr_set in Hs. rewrite Hnn in Hs.
+    destruct (nr_set_scalar_spec _ _ _ _ _ _ Hnn Hs) as [[-> Hsel]|(c & Hsel & Hne & ->)].
+    - rewrite (select_unique_visible _ _ _ _ _ Hu Hrr Hns) in Hsel.
+      destruct Hsel as [Hsel|(c & Hsel & Hc)]; [discriminate|]. inv Hsel. eauto.
+    - rewrite (select_unique_visible _ _ _ _ _ Hu Hrr Hns) in Hsel. inv Hsel. eauto.
+  Qed.
+
+  (* One rule applied to one referrer never retargets: a reached scalar field either keeps its text or
+     receives the current name of a candidate that once had exactly that text as its name and was of the
+     kind the rule is about. *)
+  Lemma no_retarget_rule cands fs tg referrer r' a t s old :
+    rule_path_plain fs ->
+    reaches (path_splitter (fs_path fs)) a (r_node referrer) = true ->
+    get_addr a (r_node referrer) = Some (Scalar t s old) ->
+    is_null (Scalar t s old) = false ->
+    apply_rule cs nonstr cands fs tg referrer = Ok r' ->
+    get_addr a (r_node r') = Some (Scalar t s old) \/
+    exists c, In c cands /\ prev_name_matches old c = true /\ prev_id_selected_by tg c = true /\
+              get_addr a (r_node r') = Some (Scalar TNone s (c_name c)).
+  Proof.
+    intros Hplain Hr Hg Hnn H.
+    unfold apply_rule in H.
+    set (x := make_ctx cs referrer (fs_path fs) tg) in *.
+    destruct (fs_filter None TNone (nr_set nonstr x cands) (fs_create fs)
+                        (path_splitter (fs_path fs)) (r_node referrer)) as [n'| | |] eqn:HF;
+      cbn [bind] in H; try discriminate. inv H. cbn [r_node with_node].
+    destruct (fs_filter_at None TNone _ (fs_create fs) _ a Hplain (or_intror eq_refl) _ _ _ Hr Hg HF)
+      as (leaf' & Hs & Hg').
+    unfold nr_set in Hs. rewrite Hnn in Hs.
+    destruct (nr_set_scalar_spec _ _ _ _ _ _ Hnn Hs) as [[-> Hsel]|(c & Hsel & Hne & ->)].
+    - left. assumption.
+    - right. exists c. apply select_referral_sound in Hsel as (Hin & H1 & H2). auto.
+  Qed.
+
+  (* One rule applied to one referrer leaves a reached scalar alone when no candidate ever had that name
+     (references to objects outside the build). *)
+  Lemma external_untouched_rule cands fs tg referrer r' a t s old :
+    rule_path_plain fs ->
+    reaches (path_splitter (fs_path fs)) a (r_node referrer) = true ->
+    get_addr a (r_node referrer) = Some (Scalar t s old) ->
+    (forall c, In c cands -> prev_name_matches old c = false) ->
+    apply_rule cs nonstr cands fs tg referrer = Ok r' ->
+    get_addr a (r_node r') = Some (Scalar t s old).
+  Proof.
+    intros Hplain Hr Hg Hno H.
+    unfold apply_rule in H.
+    set (x := make_ctx cs referrer (fs_path fs) tg) in *.
+    destruct (fs_filter None TNone (nr_set nonstr x cands) (fs_create fs)
+                        (path_splitter (fs_path fs)) (r_node referrer)) as [n'| | |] eqn:HF;
+      cbn [bind] in H; try discriminate. inv H. cbn [r_node with_node].
+    destruct (fs_filter_at None TNone _ (fs_create fs) _ a Hplain (or_intror eq_refl) _ _ _ Hr Hg HF)
+      as (leaf' & Hs & Hg').
+    unfold nr_set in Hs.
+    destruct (is_null (Scalar t s old)) eqn:Hnn.
+    - inv Hs. assumption.
+    - unfold nr_set_scalar in Hs. cbn [node_value] in Hs.
+      rewrite (select_none _ _ _ _ Hno) in Hs. cbn [bind] in Hs. inv Hs. assumption.
+  Qed.
+End RuleLevel.
